@@ -129,7 +129,7 @@ def loop_correspondence(ctx, n_quick, n_thorough):
     roll-back flag with the real run."""
     from sqlfluff.core import Linter
     from vlib import looptrace
-    items = [i for i in corpus.full_universe(("all", "layout")) if i[0] != "jinja"]
+    items = [i for i in corpus.full_universe(("all", "layout")) if i[0] not in ("jinja", "jpad")]
     ctx.rng.shuffle(items)
     lines, meta = [], []
     for item in items[: ctx.budget(n_quick, n_thorough)]:
